@@ -55,12 +55,37 @@ class World:
         with self.lock:
             self.ev.append(kw)
 
-    def call(self, p):
+    def async_emit(self, p, fails):
+        """in the calling (producer) thread: one element through an asynchronous pipeline that this thread runs itself"""
+        import asyncio
+        from streamz.core import thread_state
+
+        def f(x):
+            if fails:
+                raise ConsumerError("function of the asynchronous pipeline failed")
+            return x
+
+        async def main():
+            a = Stream(asynchronous=True)
+            a.map(f).sink(lambda x: None)
+            await a.emit(1)
+        try:
+            asyncio.run(main())
+        except ConsumerError:
+            pass
+        self.log(ev="AsyncEmit", p=p, fails=bool(fails), flag=bool(getattr(thread_state, "asynchronous", False)))
+
+    def call(self, p, pre=None):
         k = self.ncall[p] = self.ncall.get(p, 0) + 1
-        self.log(ev="Call", p=p)
+        if pre is None:
+            self.log(ev="Call", p=p)
 
         def body():
             kind = "ok"
+            if pre is not None:
+                # the same thread first pushes an element through an asynchronous pipeline of its own (which may fail)
+                self.async_emit(p, pre == "fail")
+                self.log(ev="Call", p=p)
             try:
                 self.src.emit((p, k))
             except ConsumerError:
@@ -119,7 +144,7 @@ def run(shape, np_, nc, script, looped=False):
     w = World(shape, looped)
     for op in script:
         if op[0] == "call":
-            w.call(op[1])
+            w.call(op[1], op[2] if len(op) > 2 else None)
         else:
             w.finish(op[1], set(op[2]))
     # whatever is still suspended is finished one by one so that no thread is left behind
@@ -184,6 +209,11 @@ def main():
     # producer threads that run an event loop of their own: the blocking emit still blocks them
     for s in scripts(2, 2, rng, 15 if a.tier == "quick" else 150):
         runs.append(run("direct", 2, 2, s, looped=True))
+    # a producer thread that, before its blocking emit, pushes an element through an asynchronous pipeline of its own -- which
+    # may fail: the thread's flag is put back either way, and the blocking emit blocks
+    for s in scripts(2, 2, rng, 12 if a.tier == "quick" else 120):
+        s = [(o[0], o[1], rng.choice(["ok", "fail", "fail"])) if o[0] == "call" and rng.random() < 0.7 else o for o in s]
+        runs.append(run("direct", 2, 2, s))
     n = 40 if a.tier == "quick" else 400
     for shape in ("direct", "map", "filter_map"):
         for np_ in (2, 3):
